@@ -97,7 +97,7 @@ class Ctx:
                 shutil.copy(os.path.join(SPEC, f), d)
         cfg = cfg or module + ".cfg"
         e = dict(os.environ, **(env or {}))
-        e["JAVA_TOOL_OPTIONS"] = "-Xmx%s -Xss256m" % heap
+        e["JAVA_TOOL_OPTIONS"] = "-Xmx%s -Xss512m" % heap
         cmd = ["timeout", str(timeout), "tlc", "-workers", str(workers), "-metadir", os.path.join(d, "md"),
                "-config", cfg] + list(args) + [module + ".tla"]
         t = time.time()
